@@ -5,6 +5,7 @@ from props import repo_common, ops_common
 
 
 def run(ctx):
+    design = ops_common.keys_design_runs(ctx)
     p, hs, r = ops_common.gen_histories(ctx, "keys", ctx.pick(16, 300), depth=8)
     out = ctx.go_test("cmd/restic", "^TestVerif_C29$", timeout=3300, env={"VERIF_HISTORIES": p})
     n, bad, lines = ctx.check_records("Fn_Keys", os.path.join(out, "recs.ndjson"))
@@ -15,5 +16,5 @@ def run(ctx):
         ctx.violate("keys/%s/%s" % (opn, why), "history %s step %s op %s after backend op %s: opens=%s expected=%s keys=%s masters=%s hint_ok=%s" % (
             rec["history"], rec["step"], rec["op"], rec["seq"], rec["opens"], rec["expected"], rec["nkeys"], rec["masters"], rec["hint_ok"]), rec)
     return repo_common.finish_trace(ctx, out, "model_checking",
-                                    extra_cov={"histories_generated_by_tlc": len(hs), "password_probe_records_checked_by_tlc": n,
+                                    extra_cov={"design_model_runs": design, "histories_generated_by_tlc": len(hs), "password_probe_records_checked_by_tlc": n,
                                                "records_rejected": len(bad)})
